@@ -146,7 +146,8 @@ class Inst:
     """one harness instance = one goto program = one family of solver queries."""
     def __init__(self, id, props, harness, entry, tus=(), defs=(), stubs=(), unwind=3, unwindset=(),
                  backends=("z3", "sat"), timeout=120, tier="quick", objbits=12, mem_gb=16,
-                 bounds="", inputs="", c_sources=(), nounwind_assert=False, extra_cbmc=(), ub=True, desc="", model_unwind=17, short_strings=True, truncate_long=False, quick_also=None):
+                 bounds="", inputs="", c_sources=(), nounwind_assert=False, extra_cbmc=(), ub=True, desc="", model_unwind=17, short_strings=True, truncate_long=False, quick_also=None, native_extra=()):
+        self.native_extra = list(native_extra)      # further /repo sources the native (replay) build of the harness file needs
         # quick tier of property P = quick instances whose primary property (props[0]) is P, or that list P in quick_also;
         # the thorough tier of P runs every instance that carries P
         self.quick_also = list(quick_also) if quick_also is not None else None
@@ -352,7 +353,7 @@ def run_cbmc(gb, inst, tag, workdir, loops=()):
             args = " ".join("--property '%s'" % n for n in names)
             sc = os.path.join(workdir, "run-%s-%s-%s.sh" % (tag, gt, be))
             with open(sc, "w") as f:
-                f.write("ulimit -v %d\nexec /usr/bin/time -f 'VXTIME %%e s %%M KB' cbmc %s %s --trace --verbosity 7 %s %s\n" % (
+                f.write("ulimit -v %d\nexec /usr/bin/time -f 'VXTIME %%e s %%M KB' cbmc %s %s --trace --verbosity 8 %s %s\n" % (
                     inst.mem_gb * 1024 * 1024, gb, " ".join(flags), " ".join(BEFLAGS[be]), args))
             lf = open(log, "w")
             p = subprocess.Popen(["bash", sc], stdout=lf, stderr=subprocess.STDOUT, preexec_fn=os.setsid)
